@@ -446,26 +446,63 @@ End
 """
 
 
+# the same guard after another task has evaluated guards over the SAME variable name and
+# attribute names with the types swapped (variables are local to a task: what one task's
+# guards did with "d.count" must not influence how another task's guard reads its own d.count)
+EXPR_PROGRAM_SHARED = EXPR_PROGRAM.replace("Task productionTask\n", """Struct Other
+    count: boolean
+    ratio: boolean
+    n: boolean
+    flag: number
+    ok: number
+End
+
+Task warmUp
+    W0
+        Out
+            d: Other
+    Condition
+        d.count == d.ratio Or d.n != d.count
+    Passed
+        WP
+    Condition
+        d.flag + d.ok > 0 Or d.flag * d.ok <= 0
+    Passed
+        WQ
+End
+
+Task productionTask
+    warmUp
+""")
+
+
 def expr_run_impl(text, val):
     """returns (decision or None, parsed tree or None, note)"""
     import impl_run
+    import zlib
+    shared = zlib.crc32(text.encode()) % 3 == 0
     try:
-        run = impl_run.ImplRun(EXPR_PROGRAM % text, [val], [], test_ids=True)
+        run = impl_run.ImplRun((EXPR_PROGRAM_SHARED if shared else EXPR_PROGRAM) % text, [val], [], test_ids=True)
     except Exception as e:  # noqa: BLE001
         return None, None, "construct:" + type(e).__name__
     if not run.valid:
         return None, None, "invalid:" + run.stdout.strip().split("\n")[0][:80]
     import gen_expr
-    tree = gen_expr.dict_to_ast(run.s.process.tasks["productionTask"].statements[1].expression)
+    tree = gen_expr.dict_to_ast(run.s.process.tasks["productionTask"].statements[2 if shared else 1].expression)
+    started = []
     try:
-        run.call(("start",))
-        rec = run.call(("finish", 0))
+        rec = run.call(("start",))
+        for _ in range(8):
+            started += [e[3] for e in rec["log"] if e[0] == "notif" and e[2] == "SS"]
+            if "SP" in started or "SF" in started or not run.pending:
+                break
+            rec = run.call(("finish", run.pending[0]))
     except Exception as e:  # noqa: BLE001
         return None, tree, "exception:" + type(e).__name__
-    started = [e[3] for e in rec["log"] if e[0] == "notif" and e[2] == "SS"]
-    if started == ["SP"]:
+    branch = [x for x in started if x in ("SP", "SF")]
+    if branch == ["SP"]:
         return True, tree, ""
-    if started == ["SF"]:
+    if branch == ["SF"]:
         return False, tree, ""
     return None, tree, "no-branch:" + repr(started)
 
